@@ -82,7 +82,7 @@ def reset_generator_globals():
 
 
 def generate(doc, root, output_package="cli", core_package=None, force=True, naming="operationId",
-             fmt="json", spec_name=None, no_postprocess=True, reset=True):
+             fmt="json", spec_name=None, no_postprocess=True, reset=True, around=None):
     """Run the real generator on `doc` into project root `root`.
     Returns (files | None, exception | None)."""
     from pyopenapi_gen.generator.client_generator import ClientGenerator
@@ -98,7 +98,7 @@ def generate(doc, root, output_package="cli", core_package=None, force=True, nam
     write_spec(doc, spec_path, fmt)
     ns = {s.value: s for s in NamingStrategy}[naming]
     try:
-        with Quiet():
+        with Quiet(), (around() if around is not None else contextlib.nullcontext()):
             files = ClientGenerator(verbose=False).generate(
                 spec_path=spec_path, project_root=__import__("pathlib").Path(root), output_package=output_package,
                 core_package=core_package, force=force, no_postprocess=no_postprocess, naming_strategy=ns)
